@@ -9,8 +9,9 @@ Open Scope Z_scope.
 (* ---------- the trees inference can produce, the values generated from such a tree *)
 Definition atom_value (a : atomic) (v : pyval) : bool :=
   match a, v with
-  | ABoolean, PBool _ | ALong, PInt _ | ADouble, PFloat _ | AString, PStr _ | ABinary, PBytearray _
+  | ABoolean, PBool _ | ADouble, PFloat _ | AString, PStr _ | ABinary, PBytearray _
   | ADate, PDate _ | ATimestamp, PDatetime _ _ => true
+  | ALong, PInt z => (- 2 ^ 63 <=? z) && (z <=? 2 ^ 63 - 1)      (* a long value: a 64-bit integer *)
   | _, _ => false
   end.
 
@@ -351,7 +352,9 @@ Lemma verify_ivalue : forall t, inferable t -> forall v n, ivalue t v -> (v = PN
 Proof.
   induction t as [a|p q|e b IHe|k x b IHk IHx|fs IH] using dtype_ind'; intros Hinf v n Hv Hn.
   - destruct Hv as [->|Hv]; [rewrite verify_none, Hn; reflexivity|].
-    destruct a, v; try discriminate Hv; reflexivity.
+    destruct a, v; try discriminate Hv; try reflexivity.
+    simpl in Hv. apply andb_true_iff in Hv. destruct Hv as [H1 H2]. apply Z.leb_le in H1. apply Z.leb_le in H2.
+    apply in_range_all; [right; right; right; now left|]. simpl. lia.
   - destruct Hv as [->|[d ->]]; [rewrite verify_none, Hn; reflexivity|]. reflexivity.
   - destruct Hv as [->|(l & -> & Hl)]; [rewrite verify_none, Hn; reflexivity|].
     destruct Hinf as [-> Hie]. cbn [verify is_none]. cbn.
@@ -437,56 +440,30 @@ Lemma convert_struct_row fs names vals :
     else Ok (PRow names vals).
 Proof. reflexivity. Qed.
 
-(* no None where the converter iterates: at an array / map whose element type needs a converter *)
-Fixpoint conv_safe (t : dtype) (v : pyval) : Prop :=
-  match t with
-  | TArray e _ =>
-      (need_converter e = true -> v <> PNone) /\ forall l, v = PList l -> Forall (conv_safe e) l
-  | TMap k x _ =>
-      (need_converter k || need_converter x = true -> v <> PNone) /\
-      forall kv, v = PDict kv -> Forall (fun p => conv_safe k (fst p) /\ conv_safe x (snd p)) kv
-  | TStruct fs =>
-      forall names vals, v = PRow names vals ->
-        (fix go (fs : list (sfield dtype)) (vals : list pyval) : Prop :=
-           match fs, vals with
-           | SField _ ty _ _ :: r, x :: vals' => conv_safe ty x /\ go r vals'
-           | _, _ => True
-           end) fs vals
-  | _ => True
-  end.
-
-Definition fields_conv_safe : list (sfield dtype) -> list pyval -> Prop :=
-  fix go (fs : list (sfield dtype)) (vals : list pyval) : Prop :=
-    match fs, vals with
-    | SField _ ty _ _ :: r, x :: vals' => conv_safe ty x /\ go r vals'
-    | _, _ => True
-    end.
-
-Lemma convert_ivalue : forall t v, ivalue t v -> conv_safe t v -> convert t v = Ok v.
+Lemma convert_ivalue : forall t v, ivalue t v -> convert t v = Ok v.
 Proof.
-  induction t as [a|p q|e b IHe|k x b IHk IHx|fs IH] using dtype_ind'; intros v Hv Hs.
+  induction t as [a|p q|e b IHe|k x b IHk IHx|fs IH] using dtype_ind'; intros v Hv.
   - destruct a; try reflexivity. destruct Hv as [->|Hv]; [reflexivity|discriminate Hv].
   - reflexivity.
   - cbn [convert need_converter]. destruct (need_converter e) eqn:En; [|reflexivity]. cbn [negb].
-    destruct Hs as [Hne Hl]. destruct Hv as [->|(l & -> & Hv)]; [now elim (Hne En)|].
+    destruct Hv as [->|(l & -> & Hv)]; [reflexivity|].
     rewrite (mapM_id _ (fun y => y)).
     + now rewrite map_id.
-    + specialize (Hl l eq_refl). rewrite Forall_forall in *. intros y Hy. apply IHe; auto.
+    + rewrite Forall_forall in *. intros y Hy. apply IHe; auto.
   - cbn [convert need_converter]. destruct (need_converter k || need_converter x) eqn:En; [|reflexivity]. cbn [negb].
-    destruct Hs as [Hne Hl]. destruct Hv as [->|(kv & -> & Hv)]; [now elim (Hne En)|].
+    destruct Hv as [->|(kv & -> & Hv)]; [reflexivity|].
     rewrite (mapM_id _ (fun p => p)).
     + now rewrite map_id.
-    + specialize (Hl kv eq_refl). rewrite Forall_forall in *. intros [kk y] Hp.
-      destruct (Hv _ Hp) as (_ & Hk & Hy). destruct (Hl _ Hp) as (Sk & Sy). simpl in *.
-      rewrite (IHk kk Hk Sk). simpl. rewrite (IHx y Hy Sy). reflexivity.
+    + rewrite Forall_forall in *. intros [kk y] Hp.
+      destruct (Hv _ Hp) as (_ & Hk & Hy). simpl in *.
+      rewrite (IHk kk Hk). simpl. rewrite (IHx y Hy). reflexivity.
   - destruct Hv as [->|(vals & -> & Hv)]; [reflexivity|]. fold fields_ivalue in Hv.
-    specialize (Hs _ vals eq_refl). fold fields_conv_safe in Hs.
     rewrite convert_struct_row. destruct (existsb _ fs); [|reflexivity].
     assert (E : convert_pos fs vals = Ok vals).
-    { revert vals Hv Hs. induction fs as [|[n ty nl m] fs IHfs]; intros [|y vals] Hv Hs; simpl in Hv;
+    { revert vals Hv. induction fs as [|[n ty nl m] fs IHfs]; intros [|y vals] Hv; simpl in Hv;
         try contradiction; [reflexivity|].
-      destruct Hv as (Hy & Hv). destruct Hs as (Sy & Hs). inversion IH as [|? ? IH0 IH']; subst. simpl in IH0.
-      simpl. rewrite (IH0 y Hy Sy). simpl. rewrite (IHfs IH' vals Hv Hs). reflexivity. }
+      destruct Hv as (Hy & Hv). inversion IH as [|? ? IH0 IH']; subst. simpl in IH0.
+      simpl. rewrite (IH0 y Hy). simpl. rewrite (IHfs IH' vals Hv). reflexivity. }
     rewrite E. reflexivity.
 Qed.
 
@@ -558,18 +535,18 @@ Section Internal.
         simpl. rewrite (tz_local_id ty y Hy En1). f_equal. now apply IHfs.
   Qed.
 
-  Theorem create_collect_partial fs rows s :
-    inferable (TStruct fs) -> Forall (is_row_of (TStruct fs)) rows -> Forall (conv_safe (TStruct fs)) rows ->
+  Theorem create_collect_id fs rows s :
+    inferable (TStruct fs) -> Forall (is_row_of (TStruct fs)) rows ->
     infer_schema_from_list rows = Ok s ->
     create_inferred local rows = Ok (map (tz_local local) rows).
   Proof.
-    intros Hinf Hrows Hsafe Hs.
+    intros Hinf Hrows Hs.
     destruct (infer_verifies fs rows s Hinf Hrows Hs) as [-> _].
     unfold create_inferred. rewrite Hs. cbn [bind].
     assert (E : mapM (fun r => bind (convert (TStruct fs) r) (to_internal local (TStruct fs))) rows
                 = Ok (map (tz_local local) rows)).
     { apply mapM_id. rewrite Forall_forall in *. intros r Hr. destruct (Hrows r Hr) as [_ Hv].
-      rewrite (convert_ivalue _ r Hv (Hsafe r Hr)). cbn [bind]. now apply to_internal_ivalue. }
+      rewrite (convert_ivalue _ r Hv). cbn [bind]. now apply to_internal_ivalue. }
     rewrite E. cbn [bind].
     rewrite (mapM_id _ (fun r => r)); [now rewrite map_id|].
     rewrite Forall_forall. intros r' Hr'. apply in_map_iff in Hr'. destruct Hr' as (r & <- & Hr).
@@ -577,44 +554,18 @@ Section Internal.
   Qed.
 End Internal.
 
-(* the full statement (no condition on where the nulls are) fails: open finding
-   create:null-in-array-or-map-of-struct *)
-Definition create_collect_full : Prop :=
-  forall local fs rows s,
-    inferable (TStruct fs) -> Forall (is_row_of (TStruct fs)) rows -> infer_schema_from_list rows = Ok s ->
-    create_inferred local rows = Ok (map (tz_local local) rows).
-
+(* regression: the rows of the repaired finding create:null-in-array-or-map-of-struct *)
 Definition witness_fs : list (sfield dtype) :=
   [SField (lit "a") (TArray (TStruct [SField (lit "x") (TAtom ALong) true []]) true) true []].
 Definition witness_rows : list pyval :=
   [PRow [lit "a"] [PList [PRow [lit "x"] [PInt 1]]]; PRow [lit "a"] [PNone]].
 
-Lemma witness_fails : create_inferred 0 witness_rows = Err EType /\
-                      infer_schema_from_list witness_rows = Ok (TStruct witness_fs).
+Lemma witness_now_created : create_inferred 0 witness_rows = Ok witness_rows /\
+                            infer_schema_from_list witness_rows = Ok (TStruct witness_fs).
 Proof. split; vm_compute; reflexivity. Qed.
 
 Lemma nodup1 (n : str) : NoDup [n].
 Proof. constructor; [intros []|constructor]. Qed.
-
-Lemma witness_inferable : inferable (TStruct witness_fs).
-Proof.
-  cbn. split; [apply nodup1|]. repeat split. apply nodup1.
-Qed.
-
-Lemma witness_rows_ok : Forall (is_row_of (TStruct witness_fs)) witness_rows.
-Proof.
-  constructor; [|constructor; [|constructor]]; (split; [discriminate|]).
-  - right. exists [PList [PRow [lit "x"] [PInt 1]]]. split; [reflexivity|]. split; [|exact I].
-    right. exists [PRow [lit "x"] [PInt 1]]. split; [reflexivity|]. constructor; [|constructor].
-    right. exists [PInt 1]. split; [reflexivity|]. split; [now right|exact I].
-  - right. exists [PNone]. split; [reflexivity|]. split; [now left|exact I].
-Qed.
-
-Lemma create_collect_refuted : ~ create_collect_full.
-Proof.
-  intro H. specialize (H 0 witness_fs witness_rows (TStruct witness_fs) witness_inferable witness_rows_ok).
-  destruct witness_fails as [E1 E2]. rewrite E1 in H. specialize (H E2). discriminate H.
-Qed.
 
 (* a non-trivial instance of the hypotheses of [create_collect_partial] (nested rows, nulls, an aware datetime) *)
 Definition sample_fs : list (sfield dtype) :=
@@ -639,16 +590,6 @@ Proof.
     right. exists [PInt 1]. split; [reflexivity|]. split; [now right|exact I].
   - right. eexists. split; [reflexivity|]. split; [|split; [now left|exact I]].
     right. exists []. split; [reflexivity|constructor].
-Qed.
-
-Lemma sample_rows_safe : Forall (conv_safe (TStruct sample_fs)) sample_rows.
-Proof.
-  constructor; [|constructor; [|constructor]]; intros names vals E; injection E as <- <-; cbn.
-  - repeat split; try discriminate. intros l E. injection E as <-.
-    constructor; [|constructor; [|constructor]].
-    + intros names vals E. injection E as <- <-. cbn. auto.
-    + intros names vals E. discriminate E.
-  - repeat split; try discriminate. intros l E. injection E as <-. constructor.
 Qed.
 
 Lemma sample_inferred : infer_schema_from_list sample_rows = Ok (TStruct sample_fs).
